@@ -673,7 +673,10 @@ def _run_history(scen, want_sample=False):
                     if o[0] in ('I', 'S', 'G') and o[1] in w.dropped:
                         res.failures.append(('C09:dropped-child-used', 'step %r: value-level call %r goes to value object %d of a child '
                                              'that was removed from its parent and that the script did not keep' % (st, o[:2], o[1]), i))
-            after = mpsim.snapshot(sim.dir)
+            # the snapshot taken right after the step's last value-level call / event IS the state after the step
+            after = res.snaps.get(len(world.ops) - 1) if len(world.ops) > nlog else None
+            if after is None:
+                after = mpsim.snapshot(sim.dir)
             raw_after = mpsim.raw_snapshot(sim.dir)
             for bn, raw in raw_after.items():
                 if len(raw) > limit and bn not in grown:
